@@ -173,6 +173,15 @@ def gen_texts(run, n):
 
 def oracle(run):
     rng = run.rng
+    # positions of the two compile errors, from the printer's marks (multi-block descriptions)
+    for d, texts, marks in c01.gen_cases(run, run.budget(250, 6000)):
+        exp = c01.expected(d, texts, marks)
+        if exp[0] == "ok":
+            continue
+        run.case(("oracle-position", tuple(texts)), True, kind="position:" + exp[0])
+        for sig, detail in c01.check_case(d, texts, marks):
+            if sig == "C01:error-position-wrong":
+                run.violate("C07:compile-error-at-wrong-position", detail, {"sources": texts, "expected": list(exp)})
     for t in CORPUS + gen_texts(run, run.budget(600, 20000)):
         run.case(("oracle", tuple(t)), True, kind="text")
         for sig, detail in check_texts(t):
@@ -196,6 +205,13 @@ def oracle(run):
 
 def replay(run, obj):
     r = obj["replay"]
+    if "expected" in r:
+        real = real_outcome(r["sources"])
+        kind, b, off = r["expected"]
+        l, c = c01.line_col(r["sources"][b], off)
+        bad = real[0] != kind or (real[2], real[3]) != (l, c)
+        print("expected", kind, "at block", b, "line", l, "col", c, "; got", brief(real), real[2:5] if len(real) > 4 else "")
+        return bad
     res = check_markdown(r["markdown"]) if "markdown" in r else check_texts(r["sources"])
     for x in res:
         print(*x)
